@@ -5,6 +5,7 @@ package main
 //   httpdir  <id> <root hex> <name hex>            the path httpDir.Open hands to the source
 //   case <id> bp:<root>(mem) ...                   op sequences; everything outside the root must stay untouched
 import (
+	"bytes"
 	"regexp"
 	"fmt"
 	"os"
@@ -326,6 +327,20 @@ func runC08(c *Ctx) {
 	for _, rt := range roots {
 		for _, nm := range names {
 			realpathCase(c, fmt.Sprintf("rp%d", k), []byte(rt), nm)
+			k++
+		}
+	}
+	// names with backslashes (a name byte here): the string that is CHECKED against the root is the
+	// string that is used — a sibling called `a\x` is not below the root /a
+	for _, rt := range []string{"/a", "/a/b", "/a/"} {
+		for _, nm := range allStrings([]byte{'a', '.', '/', '\\'}, 5) {
+			if bytes.IndexByte(nm, '\\') >= 0 {
+				realpathCase(c, fmt.Sprintf("rq%d", k), []byte(rt), nm)
+				k++
+			}
+		}
+		for _, nm := range []string{"../a\\x/s", "..\\a", "../a\\", "../a/b\\x", "x/../../a\\x", "../a\\x/../a\\x/s", "..\\..\\s", "../a/../a\\/s"} {
+			realpathCase(c, fmt.Sprintf("rq%d", k), []byte(rt), []byte(nm))
 			k++
 		}
 	}
